@@ -114,6 +114,16 @@ Proof.
 Qed.
 Print Assumptions C02_invariant_distancePairs.
 
+(* coordNum with a pair list (tolerance > 0): the pair list built at the current positions reproduces the full sum
+   exactly (the pairs it drops are clamped to zero anyway); a stale pair list can only lose contributions *)
+Theorem C02_coordNum_pairlist : forall r0 r0v en ed tol cell g1 g2,
+  (0 <= tol -> cv_coordnum_pl Rops (pairlist_build Rops r0 r0v en ed tol cell g1 g2) r0 r0v en ed tol cell g1 g2 =
+               cv_coordnum Rops r0 r0v en ed tol cell g1 g2) /\
+  (forall pl, length pl = length (all_pairs g1 g2) ->
+     cv_coordnum_pl Rops pl r0 r0v en ed tol cell g1 g2 <= cv_coordnum Rops r0 r0v en ed tol cell g1 g2).
+Proof. intros. split; [apply coordnum_pairlist_exact | intros; apply coordnum_pairlist_le; assumption]. Qed.
+Print Assumptions C02_coordNum_pairlist.
+
 (* non-vacuity: a unit quaternion; an optimal quaternion exists for the one-pair list of C02_example_decomposition;
    a rotation about z *)
 Example C02_example_fit : qnorm2 (0, 0, 0, 1) = 1 /\ is_optimal (1, 0, 0, 0) [((1, 0, 0), (1, 0, 0))] /\
